@@ -9,7 +9,7 @@ SPEC = {
         "C13_overlaps_not_symmetric", "C13_merge_computes_components", "C13_sliced_eq_unsliced",
         "C13_arrival_order_irrelevant", "C13_series_independent", "C13_sliced_eq_unsliced_all_series", "C13_sliced_eq_unsliced_decoded",
         "C13_nonvacuous", "C13_nonvacuous_multi"]},
-    "harness_args": lambda tier: ["C13", "--n", 300 if tier == "quick" else 8000],
+    "harness_args": lambda tier: ["C13", "--n", 300 if tier == "quick" else 4000],
     "search_args": lambda tier: ["C13", "--n", 600],
     "level": "proof",
     "trusted_base": [
